@@ -63,8 +63,10 @@ P = {
          'whose consecutive point pairs lie on ONE input edge (C04_result_edges_lie_on_input_edges; through the on-edge invariant of the '
          'whole sweep incl. the overlap arm, exact partner positions after order_events, and the successor table staying at one vertex; '
          'the contour part holds for every instance: C04_contour_edges_are_subsegments). NOT proved: the edge appended by close(), runs '
-         'cut short by the early exit, non-zero area, orientation. Per run: every result edge lies on an input edge and every vertex is an input vertex or an intersection of two input edges, '
-         'exactly when the float run denotes the exact-arithmetic run of the model, within 1e-9 x magnitude otherwise (rational Python).',
+         'cut short by the early exit, non-zero area, orientation. Per run, on the IMPLEMENTATION\'s own result: when the float run denotes the exact-arithmetic run of the '
+         'model, the Coq-VERIFIED certificate cert04 (C04_certificate_sound: rings closed, >= 3 distinct vertices, no repeated vertex, non-zero area, '
+         'positive orientation when assembled, every edge on ONE input edge, every vertex an end point of an input edge or a common point of two '
+         'input edges reported by the exact kernel), doubled by rational Python; within 1e-9 x magnitude otherwise (rational Python only).',
          '§7 C04', 'Coq: intersection kernel theorems; exact-class link by running the model at Q; per-run provenance check'),
  'C05': ('proof', 'The partition law between the five results of one operand pair is decided for every point by the verified scene checker '
          '(check_scene_sound); area identities are exact rational on the exact class. Proved for all inputs: the pointwise Boolean '
@@ -125,7 +127,8 @@ P = {
          'decided per run by a Coq-VERIFIED certificate (C13_planar_certificate_sound: planar_check accepts only lists of segments that pairwise meet '
          'in end points of both or coincide completely with different operands), extracted and evaluated on the model run of every exact-family case, '
          'which the correspondence compares with the implementation output event for event. Per run on the complete event vectors: left-first, non-zero length (all families); no improper '
-         'contact between any two sub-segments (certificate + rational Python) and exact coverage of every input edge (exact families, rational Python). Bit-exact '
+         'contact between any two sub-segments (certificate + rational Python) and exact coverage of every input edge (exact families: the '
+         'verified certificate C13_cover_certificate_sound for complete sweeps + rational Python). Bit-exact '
          'correspondence of the full event vector with the model, all four operations, also at scales 2^-60 .. 2^40.', '§7 C13',
          'Coq: sweep invariants (links, on-edge, coverage, termination); verified planarity certificate per run; correspondence on event vectors'),
  'C14': ('proof', 'Proved for every instance: the selection tables (tables_correct), flag propagation incl. vertical predecessors '
@@ -133,7 +136,8 @@ P = {
          'for every status list the flags computed bottom-up are the parities of the non-vertical edges of the own / other operand below '
          '(status_flags_are_parities) - what remains per run is that the status is sorted by the true vertical order. compute_fields is tied to the model '
          'EXHAUSTIVELY (every combination of its inputs executed on both sides). Per run: the flags of every sub-segment against exact '
-         'crossing-number membership (rational Python).', '§7 C14',
+         'crossing-number membership: by a certificate written in Coq with the membership of the verified region checker '
+         '(C14_certificate_sound / C14_certificate_flags state what acceptance means; it rejects 201 of 568 runs of the PINNED model), doubled by rational Python.', '§7 C14',
          'Coq: decision-table theorems; exhaustive correspondence of compute_fields; per-run flag check'),
  'C15': ('proof', 'Proved: the event order never answers Equal (every instance, every store); it orders by x, then y, then right-before-left '
          '(every instance with the order laws); at the exact instance events at one point with equal left flags are ordered '
